@@ -12,7 +12,7 @@ RULE = (
     "Hypothesis draws non-differencing VHDX specs (block size 2^20..2^28, logical sector 512/4096, virtual size any sector "
     "multiple incl. more than chunk_ratio blocks so sector-bitmap entries interleave in the BAT, BAT states "
     "{0,1,2,3,6} for a sparse described set, payload blocks at any 1 MiB offsets/permutation/gaps incl. beyond 4 GiB and "
-    "4 TiB, two headers with arbitrary sequence numbers (the inactive one sometimes invalid), regions and metadata items in "
+    "4 TiB or in front of the BAT / metadata regions, the last metadata item flush with the end of its region, two headers with arbitrary sequence numbers (the inactive one sometimes invalid), regions and metadata items in "
     "any order) plus requests biased to the boundaries of described blocks; an independent writer (MS-VHDX) builds image + "
     "model; VHDX(fh).read / read_sectors must equal the model. Non-trivial = a request starts mid-block and crosses into a "
     "block that is not physically adjacent, or touches a block index >= chunk_ratio."
@@ -57,18 +57,24 @@ def vhdx_spec(draw, tier="quick", layer=0, geometry=None, has_parent=False):
     spb, chunk_ratio, pb_count, sb_count, nentries = bvhdx.geometry({"block_size": bs, "sector_size": ss, "size": size, "has_parent": has_parent})
     bat_mb = (nentries * 8 + bvhdx.MB - 1) // bvhdx.MB
     first = 2 + g1
+    unaligned = draw(st.sampled_from([0, 0, 1])) if bmb > 1 else 0
+    pad = draw(st.sampled_from([0, 0, 1]))
+    far = draw(st.sampled_from([0, 0, 0, 4096, 4095, (1 << 22) + 1, (1 << 40) - 7]))
+    data_first = draw(st.sampled_from([False, False, False, True]))
+    if data_first:
+        # payload blocks in front of the BAT and metadata regions (a file whose regions were relocated behind older blocks)
+        base = first + (far if far < 1 << 30 else 0)
+        first = base + unaligned + (max(slots, default=-1) + 1) * (bmb + pad) + 1 + g1
     if draw(st.booleans()):
         meta_mb = first
         bat_off_mb = meta_mb + 1 + g2
-        base = bat_off_mb + bat_mb + g3
+        after = bat_off_mb + bat_mb + g3
     else:
         bat_off_mb = first
         meta_mb = bat_off_mb + bat_mb + g2
-        base = meta_mb + 1 + g3
-    far = draw(st.sampled_from([0, 0, 0, 4096, 4095, (1 << 22) + 1, (1 << 40) - 7]))
-    base += far
-    unaligned = draw(st.sampled_from([0, 0, 1])) if bmb > 1 else 0
-    pad = draw(st.sampled_from([0, 0, 1]))
+        after = meta_mb + 1 + g3
+    if not data_first:
+        base = after + far
     where = {b: base + unaligned + s * (bmb + pad) for b, s in zip(present, slots)}
     blocks = [[b, s, where.get(b, draw(st.sampled_from([0, 0, 5, 1 << 30])) if s != 6 else 0)] for b, s in zip(desc, states)]
     s1 = draw(st.one_of(st.sampled_from([0, 1, 65534, (1 << 63)]), st.integers(0, (1 << 64) - 2)))
@@ -78,6 +84,7 @@ def vhdx_spec(draw, tier="quick", layer=0, geometry=None, has_parent=False):
         "block_size": bs, "sector_size": ss, "size": size, "seq": seq, "bad_other_header": draw(st.sampled_from([False, False, True])),
         "regions": {"metadata": meta_mb, "bat": bat_off_mb}, "region_order": draw(st.sampled_from(["mb", "bm"])),
         "meta_order": draw(st.permutations(list(range(5)))), "meta_gap": draw(st.sampled_from([0, 0, 4, 100])),
+        "meta_tail": draw(st.sampled_from([False, False, True])),
         "blocks": blocks, "layer": layer, "leave_allocated": draw(st.sampled_from([False, False, True])), "data_end_mb": base + unaligned + (max(slots, default=-1) + 1) * (bmb + pad),
     }
 
